@@ -96,6 +96,9 @@ m('revert-F11c-swallowed-hash-error-in-lookup', 'C10', 'C _lookup cache probe sw
 m('revert-F15-verify-before-first-changed', 'C11', 'Python VerifyingBase has no snapshot defaults: a lookup during rebuild() raises AttributeError (defect F15)',
   [(A, "    _verify_ro = ()\n    _verify_generations = None\n\n    def changed(self, originally_changed):\n        LookupBaseFallback.changed(self, originally_changed)  # noqa F821", "    def changed(self, originally_changed):\n        LookupBaseFallback.changed(self, originally_changed)  # noqa F821")])
 
+m('revert-F16-unguarded-dependents-creation', 'C11', 'Specification.dependents creates its map without a lock (defect F16; 1 in 60 000 thread runs: detected by the thorough tier, not reliably by the quick tier)',
+  [(I, "            with _dependents_lock:\n                if self._dependents is None:\n                    self._dependents = weakref.WeakKeyDictionary()", "            self._dependents = weakref.WeakKeyDictionary()")])
+
 def sh(*a, **k):
     return subprocess.run(a, capture_output=True, text=True, **k)
 
